@@ -52,6 +52,13 @@ def Port.close (p : Port) : Port :=
   let p1 := if p.autoreset then Port.resetSends resetIds p else p
   { p1 with log := p1.log ++ [.closed], closed := true }
 
+/-- `reset()` called by the user: nothing on a closed port; otherwise the 32 reset messages one by one through `send`;
+    the first `_send` the device refuses raises OSError (the messages before it have been sent) -/
+def Port.userReset (p : Port) : Port × Except Err Unit :=
+  if p.closed then (p, .ok ()) else
+  let fails := p.kind == .dev && (match p.budget with | some b => decide (b < resetIds.length) | none => false)
+  (Port.resetSends resetIds p, if fails then .error .OSError else .ok ())
+
 /-- `send(msg)` -/
 def Port.send (p : Port) (id : Nat) : Port × Except Err Unit :=
   if p.closed then (p, .error .ValueError)
@@ -129,7 +136,7 @@ def Port.iter (p : Port) : Port × List Nat × Ending :=
 
 /-! ### operations as a state machine (for histories) -/
 inductive LOp
-  | send (id : Nat) | receive | poll | iterAll | iterPending | close | withExit
+  | send (id : Nat) | receive | poll | iterAll | iterPending | close | withExit | reset
   deriving DecidableEq, Repr
 
 inductive LOut
@@ -143,6 +150,7 @@ def lstep (p : Port) : LOp → Port × LOut
   | .iterAll => let (p', ms, e) := p.iter; (p', .yielded ms e)
   | .iterPending => let (p', ms, e) := Port.iterPending p.pendingFuel p []; (p', .yielded ms e)
   | .close | .withExit => (p.close, .unit)
+  | .reset => let (p', r) := p.userReset; (p', match r with | .ok _ => .unit | .error e => .r (.raised e))
 
 def lrun (p : Port) : List LOp → Port
   | [] => p
